@@ -116,6 +116,10 @@ impl Board {
     }
 
     pub fn perft_test(&self, depth: usize) -> usize {
+        if depth == 0 {
+            return 1;
+        }
+
         let iterable = self.legals();
 
         let mut result: usize = 0;
